@@ -283,7 +283,9 @@ class CallMixin:
         if isinstance(a, ast.Call) and isinstance(a.func, ast.Name) and a.func.id == "range":
             (n,) = [self.coerce(self.eval(x, st), TInt, node).t for x in a.args]
             x = z3.Int(fresh_name("x"))
-            return Val(TSet(TInt), z3.Lambda([x], z3.And(0 <= x, x < n)))
+            R = z3.Const(fresh_name("rangeset"), sort_of(TSet(TInt)))
+            self.fact(st, forall([x], z3.Select(R, x) == z3.And(0 <= x, x < n), patterns=[z3.Select(R, x)]))
+            return Val(TSet(TInt), R)
         if isinstance(a, ast.Call) and isinstance(a.func, ast.Name) and a.func.id == "list":
             a = a.args[0]
         v = self.eval(a, st)
@@ -299,9 +301,9 @@ class CallMixin:
             j = z3.Int(fresh_name("j"))
             x = z3.Const(fresh_name("x"), sort_of(ty.elem))
             w = z3.Function(fresh_name("wit"), sort_of(ty.elem), z3.IntSort())
-            self.fact(st, z3.ForAll([j], z3.Implies(z3.And(0 <= j, j < l_len(v.t)), z3.Select(s, l_at(v.t, j))),
+            self.fact(st, forall([j], z3.Implies(z3.And(0 <= j, j < l_len(v.t)), z3.Select(s, l_at(v.t, j))),
                                     patterns=[l_at(v.t, j)]))
-            self.fact(st, z3.ForAll([x], z3.Implies(z3.Select(s, x),
+            self.fact(st, forall([x], z3.Implies(z3.Select(s, x),
                                                     z3.And(0 <= w(x), w(x) < l_len(v.t), l_at(v.t, w(x)) == x)),
                                     patterns=[z3.Select(s, x)]))
             return Val(sty, s)
@@ -418,11 +420,11 @@ class CallMixin:
             raise Unsupported("sort key of type %s" % ka.ty, node)
         kb = z3.substitute(ka.t, (a, b))
         self.fact(st, l_len(R) == n)
-        self.fact(st, z3.ForAll([a], z3.Implies(z3.And(0 <= a, a < n), z3.And(0 <= pi(a), pi(a) < n, l_at(R, a) == l_at(lst.t, pi(a)), pinv(pi(a)) == a)),
+        self.fact(st, forall([a], z3.Implies(z3.And(0 <= a, a < n), z3.And(0 <= pi(a), pi(a) < n, l_at(R, a) == l_at(lst.t, pi(a)), pinv(pi(a)) == a)),
                                 patterns=[l_at(R, a)]))
-        self.fact(st, z3.ForAll([a], z3.Implies(z3.And(0 <= a, a < n), z3.And(0 <= pinv(a), pinv(a) < n, pi(pinv(a)) == a)),
+        self.fact(st, forall([a], z3.Implies(z3.And(0 <= a, a < n), z3.And(0 <= pinv(a), pinv(a) < n, pi(pinv(a)) == a)),
                                 patterns=[pinv(a), S.Tr(a)]))
-        self.fact(st, z3.ForAll([a, b], z3.Implies(z3.And(0 <= a, a < b, b < n), z3.And(ka.t <= kb, z3.Implies(ka.t == kb, pi(a) < pi(b)))),
+        self.fact(st, forall([a, b], z3.Implies(z3.And(0 <= a, a < b, b < n), z3.And(ka.t <= kb, z3.Implies(ka.t == kb, pi(a) < pi(b)))),
                                 patterns=[z3.MultiPattern(l_at(R, a), l_at(R, b))]))
         self.last_sort = dict(R=R, pi=pi, pinv=pinv)
         return Val(ty, R)
@@ -542,7 +544,7 @@ class CallMixin:
             self.fact(st, l_len(R) == n)
             a = z3.Int(fresh_name("a"))
             body = z3.Implies(z3.And(0 <= a, a < n), l_at(R, a) == z3.substitute(elem.t, (j, a)))
-            self.fact(st, z3.ForAll([a], body, patterns=[l_at(R, a), l_at(src.t, a)]))
+            self.fact(st, forall([a], body, patterns=[l_at(R, a), l_at(src.t, a)]))
             return Val(ty, R)
         # filter: witness functions (order preserving, sound, complete)
         conds = under([], lambda: [self.truthy(self.eval(c, st2), node) for c in g.ifs])
@@ -557,17 +559,17 @@ class CallMixin:
         sub = lambda t, x: z3.substitute(t, (j, x))
         self.fact(st, l_len(R) >= 0)
         self.fact(st, l_len(R) <= n)
-        self.fact(st, z3.ForAll([a], z3.Implies(z3.And(0 <= a, a < l_len(R)),
+        self.fact(st, forall([a], z3.Implies(z3.And(0 <= a, a < l_len(R)),
                                                 z3.And(0 <= s(a), s(a) < n, sub(cond, s(a)), l_at(R, a) == sub(elem.t, s(a)),
                                                        inv(s(a)) == a)),
                                 patterns=[l_at(R, a), s(a)]))
-        self.fact(st, z3.ForAll([a, b], z3.Implies(z3.And(0 <= a, a < b, b < l_len(R)), s(a) < s(b)),
+        self.fact(st, forall([a, b], z3.Implies(z3.And(0 <= a, a < b, b < l_len(R)), s(a) < s(b)),
                                 patterns=[z3.MultiPattern(s(a), s(b))]))
-        self.fact(st, z3.ForAll([a], z3.Implies(z3.And(0 <= a, a < n, sub(cond, a)),
+        self.fact(st, forall([a], z3.Implies(z3.And(0 <= a, a < n, sub(cond, a)),
                                                 z3.And(0 <= inv(a), inv(a) < l_len(R), s(inv(a)) == a)),
                                 patterns=[inv(a)] if True else None))
         # completeness trigger on the source element as well
-        self.fact(st, z3.ForAll([a], z3.Implies(z3.And(0 <= a, a < n, sub(cond, a)),
+        self.fact(st, forall([a], z3.Implies(z3.And(0 <= a, a < n, sub(cond, a)),
                                                 z3.And(0 <= inv(a), inv(a) < l_len(R), s(inv(a)) == a)),
                                 patterns=[l_at(src.t, a)]))
         self.last_filter = dict(R=R, s=s, inv=inv, src=src, cond=cond, j=j)
